@@ -183,4 +183,27 @@ CHECKS = {
         technique='static literal-set / return-value table extraction from the classifier CFG and structural rules on the parser loop',
         design_ref='3-G, 4-C20',
     ),
+    'C08': dict(
+        category='other',
+        text='Decides structural clauses of the list table, not multimap behaviour over the 16 option combinations: L1 load returns '
+             'a count incremented per added entry; L2 the sort exchanges only for a strictly positive comparison (stability) and '
+             'exchanges every payload field; L3 save/load use the inverse codec pair under their flags with the same separator; L4 '
+             'every behaviour option sets its own field and every field is read by the operation it governs; L5 direction choices map '
+             'forward to first/next and backward to last/prev, insert-at-top links before first; T4/R2 count and payload/size pairing.',
+        note='Behaviour over histories, duplicate-key positions and removal during a walk are runtime behaviour and not decided.',
+        technique='static structural / sibling-agreement rules over the AST and CFG of qlisttbl.c',
+        design_ref='4-C08',
+    ),
+    'C09': dict(
+        category='other',
+        text='Decides the end-agreement clause that makes queue/stack/grow FIFO/LIFO/concatenation, and accounting clauses of the list: '
+             'E1 through the method table every queue insert variant uses one end and every remove/peek variant the opposite end, every '
+             'stack variant the same end, every grow add appends and the flatteners walk first->next; E2 first/last wrappers are the '
+             '0/-1 index forms; E3 the byte total changes by exactly the stored size with the count; E4 link-in only after the '
+             'size-limit and range refusals; T4/R2 count and payload/size pairing. Sequence behaviour over histories and the index walk '
+             'for every (n, index) are not decided.',
+        note='The limit/range comparisons themselves (off-by-one) are not judged beyond their presence and dominance.',
+        technique='static call-resolution through method tables with end classification, plus pairing/dominance rules on qlist.c',
+        design_ref='4-C09',
+    ),
 }
